@@ -206,8 +206,11 @@ impl SwiftField for Field53D {
         // Parse remaining lines as name and address (max 4 lines, max 35 chars each)
         let mut name_and_address = Vec::new();
         for (i, line) in lines.iter().enumerate() {
+            // More lines than the format allows are an error, not something to drop silently
             if i >= 4 {
-                break;
+                return Err(ParseError::InvalidFormat {
+                    message: "Field 53D cannot have more than 4 name and address lines".to_string(),
+                });
             }
             if line.len() > 35 {
                 return Err(ParseError::InvalidFormat {
